@@ -22,10 +22,17 @@ theorem accept_open (c : Client) (ans : Nat → Nat) (id : Nat) (h : c.sock = so
   · rfl
   · split <;> rfl
 
+theorem timerFired_iff (c : Client) : timerFired c = true ↔ 0 < c.timeout ∧ c.timer.stop ≤ c.now := by
+  simp [timerFired, Timer.expired]
+
+theorem cutoffPart_not_cutoff (c : Client) (d : Option Int) (hx : c.cutoff = false) : cutoffPart c d = (c, []) := by
+  simp [cutoffPart, hx]
+
 def notRefused (code : Nat) : Prop := code ≠ EINVAL ∧ code ≠ ECONNREFUSED
 def isOk (code : Nat) : Prop := code = 0 ∨ code = EISCONN
 
 instance (code : Nat) : Decidable (isOk code) := by unfold isOk; infer_instance
+instance (code : Nat) : Decidable (notRefused code) := by unfold notRefused; infer_instance
 
 /-- one `Client.serviceConnect` on an open, unconnected socket whose answer is not a refusal and
 at which the reconnect timer does not fire -/
@@ -59,13 +66,14 @@ theorem serviceConnect_step (c : Client) (ans : Nat → Nat) (id : Nat)
     obtain ⟨c1, e1⟩ := r
     simp only at hacc
     subst hacc
-    simp only [ha, Bool.not_false, Bool.true_and]
-    by_cases hrec : c.reconnectable = true
-    · simp only [hrec, if_true]
-      have := ht hrec
-      simp only [Timer.expired, decide_eq_true_eq]
-      rw [if_neg this]
-    · simp [hrec]
+    have hnf : ¬ ((!c.accepted && c.reconnectable && timerFired { c with attempts := c.attempts + 1 }) = true) := by
+      intro h
+      simp only [Bool.and_eq_true] at h
+      have hf := (timerFired_iff { c with attempts := c.attempts + 1 }).mp h.2
+      exact ht h.1.2 hf
+    simp only [Bool.and_eq_true] at hnf ⊢
+    rw [if_neg hnf]
+    simp [ha]
 
 /-- the server listens with latency `k`: no refusal before, success at the `k`-th `connect_ex` on a socket -/
 def Listening (k : Nat) (ansOf : Nat → Nat) : Prop :=
@@ -78,10 +86,18 @@ def Paced : Int → List Int → Prop
   | _, [_] => True
   | slack, d :: d' :: rest => d < slack ∧ Paced (slack - d) (d' :: rest)
 
+instance Paced.dec : ∀ (slack : Int) (dts : List Int), Decidable (Paced slack dts)
+  | _, [] => isTrue trivial
+  | _, [_] => isTrue trivial
+  | slack, d :: d' :: rest =>
+    match Paced.dec (slack - d) (d' :: rest) with
+    | isTrue h => if hd : d < slack then isTrue ⟨hd, h⟩ else isFalse (fun h' => hd h'.1)
+    | isFalse h => isFalse (fun h' => h h'.2)
+
 /-- a client that is connected and not cut off is left alone by every service call -/
 theorem service_live (k : Kind) (c : Client) (ans : Nat → Nat) (ha : c.accepted = true) (hx : c.cutoff = false) :
     (k.service c ans).1 = c := by
-  cases k <;> simp [Kind.service, serviceConnect, stackServiceConnect, patronConnect, ha, hx]
+  cases k <;> simp [Kind.service, serviceConnect, stackServiceConnect, patronConnect, cutoffPart_not_cutoff, ha, hx]
 
 theorem runListening_live (ansOf : Nat → Nat) (k : Kind) (dts : List Int) : ∀ (c : Client),
     c.accepted = true → c.cutoff = false →
@@ -108,7 +124,7 @@ theorem stack_not_cutoff (c : Client) (ans : Nat → Nat) (hx : c.cutoff = false
 theorem patron_not_cutoff (c : Client) (ans : Nat → Nat) (hx : c.cutoff = false) (ha : c.accepted = false) :
     (patronConnect c ans).1 = (serviceConnect c ans).1 := by
   unfold patronConnect
-  simp [hx, ha]
+  simp [cutoffPart_not_cutoff c c.retry hx, ha]
 
 /-- **bounded liveness, core**: an open socket `id` on which `n < k` attempts have been made, not
 connected, not cut off; the server listens with latency `k`; the remaining `k - n` rounds are paced
@@ -209,5 +225,143 @@ theorem reconnect_core (k : Nat) (ansOf : Nat → Nat) (kind : Kind) (hL : Liste
           rw [e1, e2]
           have e3 : c.timer.stop - (c.now + d) = c.timer.stop - c.now - d := by omega
           rw [e3]; exact this
+
+
+/-- the state a timer-driven reopen leaves: a fresh socket, nothing tried yet, not connected, not cut
+off, the timer restarted just now -/
+def JustReopened (c : Client) (id : Nat) : Prop :=
+  c.sock = some id ∧ c.attempts = 0 ∧ c.accepted = false ∧ c.cutoff = false ∧
+  c.timer.stop = c.now + c.timer.duration
+
+instance (c : Client) (id : Nat) : Decidable (JustReopened c id) := by
+  unfold JustReopened; infer_instance
+
+theorem reopenRestart_spec (c : Client) (d : Option Int) :
+    JustReopened (reopenRestart c d).1 c.fresh ∧ (reopenRestart c d).1.now = c.now ∧
+    (reopenRestart c d).1.reconnectable = c.reconnectable ∧ (reopenRestart c d).1.timeout = c.timeout ∧
+    (reopenRestart c d).1.retry = c.retry ∧
+    (reopenRestart c d).1.timer.duration = (match d with | some x => iabs x | none => c.timer.duration) := by
+  unfold reopenRestart
+  have h := reopen_fst c
+  generalize reopen c = r at h
+  obtain ⟨c1, e1⟩ := r
+  simp only at h
+  subst h
+  cases d <;> simp [JustReopened, Timer.restart]
+
+/-- invariant: a connected client holds a socket and reports that socket's address -/
+def AddrInv (c : Client) : Prop := c.accepted = true → c.sock.isSome = true ∧ c.ca = c.sock
+
+theorem reopen_addr (c : Client) : AddrInv (reopen c).1 := by
+  rw [reopen_fst]; intro h; cases h
+
+theorem reopenRestart_addr (c : Client) (d : Option Int) : AddrInv (reopenRestart c d).1 := by
+  intro h
+  rw [(reopenRestart_spec c d).1.2.2.1] at h; cases h
+
+theorem accept_addr (c : Client) (ans : Nat → Nat) (h : AddrInv c) : AddrInv (accept c ans).1 := by
+  cases hs : c.sock with
+  | some id =>
+    rw [accept_open c ans id hs]
+    split
+    · intro _; simp [hs]
+    · split
+      · exact reopen_addr _
+      · intro ha; have := h ha; simpa [hs] using this
+  | none =>
+    -- a closed client is reopened first, then the same as above on the new socket
+    have hro := reopen_fst c
+    have key : (accept c ans).1 = (accept (reopen c).1 ans).1 := by
+      conv => lhs; unfold accept
+      simp only [hs]
+      rw [accept_open (reopen c).1 ans c.fresh (by rw [hro])]
+      generalize reopen c = r at hro
+      obtain ⟨c1, e1⟩ := r
+      simp only at hro
+      subst hro
+      simp only
+      split
+      · rfl
+      · split <;> rfl
+    rw [key, accept_open (reopen c).1 ans c.fresh (by rw [hro])]
+    split
+    · intro _; simp [hro]
+    · split
+      · exact reopen_addr _
+      · intro ha; rw [hro] at ha; cases ha
+
+theorem serviceConnect_addr (c : Client) (ans : Nat → Nat) (h : AddrInv c) : AddrInv (serviceConnect c ans).1 := by
+  unfold serviceConnect
+  by_cases ha : c.accepted = true
+  · simp only [ha, Bool.not_true, Bool.false_eq_true, if_false]; exact h
+  · have ha' : c.accepted = false := by simpa using ha
+    simp only [ha', Bool.not_false, if_true]
+    have h1 := accept_addr c ans h
+    generalize accept c ans = r at h1
+    obtain ⟨c1, e1⟩ := r
+    simp only at h1 ⊢
+    split
+    · exact reopenRestart_addr c1 none
+    · exact h1
+
+theorem cutoffPart_addr (c : Client) (d : Option Int) (h : AddrInv c) : AddrInv (cutoffPart c d).1 := by
+  unfold cutoffPart
+  split
+  · exact reopenRestart_addr c d
+  · exact h
+
+theorem stack_addr (c : Client) (ans : Nat → Nat) (h : AddrInv c) : AddrInv (stackServiceConnect c ans).1 := by
+  unfold stackServiceConnect
+  split
+  · exact cutoffPart_addr c none h
+  · split
+    · have h1 := serviceConnect_addr c ans h
+      generalize serviceConnect c ans = r at h1
+      obtain ⟨c1, e1⟩ := r
+      simp only at h1 ⊢
+      split
+      · exact h1
+      · exact h1
+    · exact h
+
+theorem patron_addr (c : Client) (ans : Nat → Nat) (h : AddrInv c) : AddrInv (patronConnect c ans).1 := by
+  unfold patronConnect
+  have h1 := cutoffPart_addr c c.retry h
+  generalize cutoffPart c c.retry = r at h1
+  obtain ⟨c1, e1⟩ := r
+  simp only at h1 ⊢
+  split
+  · have h2 := serviceConnect_addr c1 ans h1
+    generalize serviceConnect c1 ans = r2 at h2
+    obtain ⟨c2, e2⟩ := r2
+    exact h2
+  · exact h1
+
+theorem step_addr (c : Client) (op : Op) (h : AddrInv c) : AddrInv (step c op).1 := by
+  cases op with
+  | advance dt => exact h
+  | clientServiceConnect code => exact serviceConnect_addr c _ h
+  | stackServiceConnect code => exact stack_addr c _ h
+  | patronConnect code => exact patron_addr c _ h
+  | loss =>
+    simp only [step]
+    split
+    · exact h
+    · exact h
+  | close =>
+    simp only [step, close]
+    cases hs : c.sock with
+    | none => exact h
+    | some id => intro ha; cases ha
+  | reopen => exact reopen_addr c
+
+theorem run_addr (ops : List Op) : ∀ (c : Client), AddrInv c → AddrInv (run c ops).1 := by
+  induction ops with
+  | nil => intro c h; exact h
+  | cons op ops ih =>
+    intro c h
+    have := ih (step c op).1 (step_addr c op h)
+    simpa [run] using this
+
 
 end Ioflo.Reconnect
